@@ -1,22 +1,26 @@
 #!/usr/bin/env python3
-"""Compact print of a TLC counterexample for Sync.tla (debug helper)."""
+"""Compact print of a TLC counterexample for Sync.tla (debug helper): tlc ... | tlctrace.py"""
 import re, sys
 txt = sys.stdin.read()
 states = re.split(r"^State \d+: ", txt, flags=re.M)[1:]
-REC = r'\[t \|-> (\d+), ev \|-> \[k \|-> "(\w+)", n \|-> "(\w+)", who \|-> "([\w-]+)"\]\]'
-def seq(s):
-    return "[" + " ".join("%s%s%s@%s" % (m[1], ("" if m[3]=="-" else m[3]), m[2] if m[1] in ("new","upd","ren") else "", m[0]) for m in re.findall(REC, s)) + "]"
+REC = re.compile(r'\[t \|-> (\d+), ev \|-> \[([^\]]*)\]\]')
+def fmt(block):
+    out = []
+    for t, body in REC.findall(block):
+        f = dict(re.findall(r'(\w+) \|-> "([\w-]+)"', body))
+        k, w, n = f.get("k"), f.get("who"), f.get("n")
+        out.append("%s%s%s@%s" % (k, "" if w == "-" else w, n if k in ("new", "upd", "ren") else "", t))
+    return "[" + " ".join(out) + "]"
+def grab(st, name):
+    m = re.search(r"/\\ %s = (.*?)(?=\n/\\ |\Z)" % name, st, re.S)
+    return m.group(1) if m else ""
 for st in states:
     head = st.split("\n")[0]
     m = re.search(r"<(\w+) line", head)
-    act = m.group(1) if m else head[:30]
-    srv = re.search(r"/\\ srv = (.*?)\n/\\", st, re.S)
-    log = re.search(r"/\\ log = (.*?)\n/\\", st, re.S)
+    act = m.group(1) if m else head[:20]
+    log = grab(st, "log")
+    parts = re.split(r"(?:\[|,)\s*(\w) \|->\s*<<", log)
+    logs = " ".join("%s=%s" % (parts[i], fmt(parts[i + 1])) for i in range(1, len(parts), 2))
     pc = re.search(r"/\\ pc = (.*)", st)
     res = re.search(r"/\\ res = (.*)", st)
-    la = log.group(1) if log else ""
-    parts = re.split(r"(?:\[|,)\s*(\w) \|->\s*<<", la)
-    out = []
-    for i in range(1, len(parts), 2):
-        out.append("%s=%s" % (parts[i], seq(parts[i+1])))
-    print("%-13s srv=%s %s pc=%s res=%s" % (act, seq(srv.group(1)) if srv else "", " ".join(out), pc.group(1) if pc else "", res.group(1) if res else ""))
+    print("%-12s srv=%s %s pc=%s res=%s" % (act, fmt(grab(st, "srv")), logs, pc.group(1) if pc else "", res.group(1) if res else ""))
